@@ -412,7 +412,7 @@ fn format_impl(input: &str, src: InputSrc, config: &FormatConfig) -> UiuaResult<
             src,
             config,
             inputs: &inputs,
-            output: String::new(),
+            output: Output::default(),
             glyph_map: Vec::new(),
             end_of_line_comments: Vec::new(),
             prev_import_function: None,
@@ -471,7 +471,7 @@ pub(crate) fn format_words(words: &[Sp<Word>], inputs: &Inputs) -> String {
         src,
         config: &FormatConfig::default(),
         inputs,
-        output: String::new(),
+        output: Output::default(),
         glyph_map: Vec::new(),
         end_of_line_comments: Vec::new(),
         prev_import_function: None,
@@ -480,7 +480,7 @@ pub(crate) fn format_words(words: &[Sp<Word>], inputs: &Inputs) -> String {
         eval_output_comments: false,
     };
     formatter.format_words(words, true, 0);
-    formatter.output
+    formatter.output.text
 }
 
 pub(crate) fn format_word(word: &Sp<Word>, inputs: &Inputs) -> String {
@@ -488,7 +488,7 @@ pub(crate) fn format_word(word: &Sp<Word>, inputs: &Inputs) -> String {
         src: word.span.src.clone(),
         config: &FormatConfig::default(),
         inputs,
-        output: String::new(),
+        output: Output::default(),
         glyph_map: Vec::new(),
         end_of_line_comments: Vec::new(),
         prev_import_function: None,
@@ -498,14 +498,14 @@ pub(crate) fn format_word(word: &Sp<Word>, inputs: &Inputs) -> String {
     };
     formatter.format_word(word, 0);
     formatter.resolve_eol_comments();
-    formatter.output
+    formatter.output.text
 }
 
 struct Formatter<'a> {
     src: InputSrc,
     config: &'a FormatConfig,
     inputs: &'a Inputs,
-    output: String,
+    output: Output,
     glyph_map: GlyphMap,
     end_of_line_comments: Vec<EoLComment>,
     prev_import_function: Option<Ident>,
@@ -520,7 +520,7 @@ type GlyphMap = Vec<(CodeSpan, (Loc, Loc))>;
 impl Formatter<'_> {
     fn format_top_items(mut self, items: &[Item]) -> (String, GlyphMap) {
         self.format_items(items, 0);
-        let mut output = self.output;
+        let mut output = self.output.text;
         while output.ends_with('\n') {
             output.pop();
         }
@@ -654,7 +654,7 @@ impl Formatter<'_> {
                 }
                 new_output.push_str(&line);
             }
-            self.output = new_output;
+            self.output = Output::from(new_output);
         }
     }
     fn newline(&mut self, depth: usize) {
@@ -1501,9 +1501,9 @@ impl Formatter<'_> {
         }
     }
     fn push(&mut self, span: &CodeSpan, formatted: &str) {
-        let start = end_loc(&self.output);
+        let start = self.output.end_loc();
         self.output.push_str(formatted);
-        let end = end_loc(&self.output);
+        let end = self.output.end_loc();
         self.glyph_map.push((span.clone(), (start, end)));
     }
     fn format_comments(&mut self, comments: &Comments, depth: usize) {
@@ -1817,45 +1817,76 @@ fn comment_needs_space(text: &str) -> bool {
     text.starts_with(['#', '?', ' ']) || text == "exp"
 }
 
-fn end_loc(s: &str) -> Loc {
-    let bytes = s.as_bytes();
+/// The formatted text
+///
+/// The location of its end is kept up to date as the text grows and shrinks,
+/// so that mapping a glyph does not rescan everything before it.
+#[derive(Default)]
+struct Output {
+    text: String,
+    /// Number of newlines
+    line: u16,
+    /// Number of characters after the last newline
+    col: usize,
+    /// Number of characters
+    char_pos: u32,
+}
 
-    let mut line = 0;
-    let mut char_pos = 0;
-
-    for &b in bytes {
-        // Newline count
-        if b == b'\n' {
-            line += 1;
-        }
-        // Non-continuation bytes (character count)
-        // (includes newline)
-        if (b & 0xC0) != 0x80 {
-            char_pos += 1;
+impl Output {
+    fn push(&mut self, c: char) {
+        self.text.push(c);
+        self.advance(c);
+    }
+    fn push_str(&mut self, s: &str) {
+        self.text.push_str(s);
+        for c in s.chars() {
+            self.advance(c);
         }
     }
-
-    // Column number
-    let col = match bytes.iter().rposition(|&b| b == b'\n') {
-        Some(index) => {
-            // Character count after last newline
-            let tail = &bytes[index + 1..];
-            tail.iter().filter(|&&b| (b & 0xC0) != 0x80).count()
+    fn advance(&mut self, c: char) {
+        self.char_pos += 1;
+        if c == '\n' {
+            self.line = self.line.wrapping_add(1);
+            self.col = 0;
+        } else {
+            self.col += 1;
         }
-        // No newline exists, use character count
-        None => char_pos as usize,
-    };
-    // Formatting can make a line longer than the lexer accepts.
-    // Stay at the last column rather than wrap around to the first.
-    let col = u16::try_from(col).unwrap_or(u16::MAX);
+    }
+    fn pop(&mut self) -> Option<char> {
+        let c = self.text.pop()?;
+        self.char_pos -= 1;
+        if c == '\n' {
+            self.line = self.line.wrapping_sub(1);
+            self.col = (self.text.rsplit('\n').next()).map_or(0, |line| line.chars().count());
+        } else {
+            self.col -= 1;
+        }
+        Some(c)
+    }
+    fn end_loc(&self) -> Loc {
+        Loc {
+            line: self.line,
+            // Formatting can make a line longer than the lexer accepts.
+            // Stay at the last column rather than wrap around to the first.
+            col: u16::try_from(self.col).unwrap_or(u16::MAX),
+            char_pos: self.char_pos,
+            byte_pos: self.text.len() as u32,
+        }
+    }
+}
 
-    let byte_pos: u32 = bytes.len() as u32;
+impl From<String> for Output {
+    fn from(text: String) -> Self {
+        let mut output = Output::default();
+        output.push_str(&text);
+        output
+    }
+}
 
-    Loc {
-        line,
-        col,
-        char_pos,
-        byte_pos,
+impl std::ops::Deref for Output {
+    type Target = str;
+    fn deref(&self) -> &str {
+        &self.text
     }
 }
 
